@@ -135,3 +135,14 @@ package service
 //@   loop 1 invariant forall c1 string, c2 string :: present(c.entries, c1) && present(c.entries, c2) && c1 != c2 ==> c.entries[c1].replayMap != c.entries[c2].replayMap
 //@   loop 2 invariant forall ck string :: present(c.entries, ck) ==> c.entries[ck].replayMap != nil
 //@   loop 2 invariant forall c1 string, c2 string :: present(c.entries, c1) && present(c.entries, c2) && c1 != c2 ==> c.entries[c1].replayMap != c.entries[c2].replayMap
+
+// The Basic-authentication path hands over PAC attributes the same way (C19).
+//@ func (service.KRB5BasicAuthenticator).Authenticate(a) (i, ok, err)
+//@   havocs lastPACBad, adSetCount, adLogOn, adLogOff, adPwdLastSet, adUserID, adPrimaryGroupID, adEffectiveName, adFullName, adLogonServer, adLogonDomainName
+//@   ensures ok ==> !lastPACBad
+//@   ensures ok && adSetCount != old(adSetCount) ==> adLogOn == filetime(int(pac.KerbValidationInfo.LogOnTime.LowDateTime), int(pac.KerbValidationInfo.LogOnTime.HighDateTime))
+//@        && adLogOff == filetime(int(pac.KerbValidationInfo.LogOffTime.LowDateTime), int(pac.KerbValidationInfo.LogOffTime.HighDateTime))
+//@        && adPwdLastSet == filetime(int(pac.KerbValidationInfo.PasswordLastSet.LowDateTime), int(pac.KerbValidationInfo.PasswordLastSet.HighDateTime))
+//@        && adUserID == int(pac.KerbValidationInfo.UserID) && adPrimaryGroupID == int(pac.KerbValidationInfo.PrimaryGroupID)
+//@        && adEffectiveName == pac.KerbValidationInfo.EffectiveName.Value && adFullName == pac.KerbValidationInfo.FullName.Value
+//@        && adLogonServer == pac.KerbValidationInfo.LogonServer.Value && adLogonDomainName == pac.KerbValidationInfo.LogonDomainName.Value
